@@ -13,9 +13,9 @@ import (
 
 func init() {
 	register("C19", &propSpec{
-		level: "other",
+		level:       "other",
 		explanation: "Negotiation decided structurally: a Client is returned only on paths where recvVersion returned nil, and recvVersion returns nil only after the type==VERSION and version==3 tests on checked decodes, with the writer closed on every failure path; Client.ext is written only from the decoded VERSION packet and fsync is sent only under HasExtension; both servers answer INIT with version 3 and the configured extension list; the list is replaced only by one store in SetSFTPExtensions that no error return follows, from a freshly built slice whose elements come from the supported table; advertised names ⊆ names decoded by the extended-packet switch, client encoder names ⊆ the same set; an unknown extended name keeps the session open and is answered op-unsupported by both servers.",
-		run: runC19,
+		run:         runC19,
 		assumptions: []string{"third-party peers are out of scope"},
 	})
 }
